@@ -5,13 +5,16 @@ Proved here: the arithmetic core of `Machine.update_state_rep` — for every rep
 of each documented group, and never to SETUP — and its inductive step on the automaton state
 (`updRep_mstat`), plus the occupancy-histogram step; and, for EVERY activation sequence, the partition
 for Source and Sink (`source_time_partition`, `sink_time_partition`: the per-state totals add up to
-last state change − start, and the last change never lies in the future).  The induction over all
-activation sequences of the whole MACHINE automaton and the float-rounding half are not proved (the
-correspondence check compares every entry of the statistics after every activation, and the judge
-checks the partition after `update_final_state_time(T)`).
+last state change − start, and the last change never lies in the future) and for the MACHINE
+(`machine_time_partition`: both documented state groups and the worker-occupancy histogram partition
+the time since the end of the set-up period, the set-up period is charged to SETUP_STATE).  Not proved:
+that the state charged is the state the workers are actually in ("reflects actual activity" — decided by
+the truthful-accounting judge on recorded runs), Combiner / Splitter, and the float-rounding half.
 -/
 import FsVerif.Proofs.MachineStat
 import FsVerif.Proofs.NodeClock
+import FsVerif.Proofs.MachineStatRun
+import FsVerif.Props.C09
 namespace FsVerif.Props.C17
 open FsVerif MacState
 
@@ -74,5 +77,31 @@ theorem source_time_partition (cfg : SrcCfg) (acts : List SrcState.Act)
     | some l => l ≤ s.now ∧ ∃ t0, s.tStart = some t0 ∧ t0 ≤ l ∧ s.clock.tot.sum = l - t0 := by
   have h := SrcState.run_sc acts hok (SrcState.init_sc cfg)
   exact ⟨h.len, h.ok.2⟩
+
+/-! ### Machine: the partition over all activation sequences -/
+
+/-- after ANY activation sequence: once the set-up period is over (a last state change is recorded) both state groups add up to the time
+    between the end of the set-up period and that last change, which is not in the future; SETUP_STATE holds exactly the set-up time;
+    the occupancy histogram adds up to the time of its last change -/
+theorem machine_time_partition (cfg : MacCfg) (acts : List MacState.Act) :
+    let s := MacState.runActs (MacState.init cfg) acts
+    (∀ l, s.last = some l → l ≤ s.now ∧ ∃ te, s.tEnd = some te ∧ te ≤ l ∧ sumA s.tt = l - te ∧ sumB s.tt = l - te) ∧
+    (s.last = none → sumA s.tt = 0 ∧ sumB s.tt = 0) ∧
+    s.tt.setup = (if s.tEnd.isSome then s.cfg.setup else 0) ∧
+    s.occ.sum = s.lastOcc ∧ s.lastOcc ≤ s.now := by
+  have h := (MacState.runActs_mr acts (MacState.init_mr cfg)).st
+  obtain ⟨a, b, c, _⟩ := h
+  refine ⟨?_, ?_, b, c.1, c.2⟩
+  · intro l hl
+    rw [hl] at a
+    obtain ⟨h1, te, h2, h3, h4, h5, _⟩ := a
+    exact ⟨h1, te, h2, h3, h4, h5⟩
+  · intro hl
+    rw [hl] at a
+    exact a
+
+/-- non-vacuity on the RECORDED blocking-machine run of Props/C09: last change at 10, set-up ended at 0, both groups add up to 10 -/
+example : let s := MacState.runActs (MacState.init { wc := 1, blocking := true }) C09.demoBlocking
+    (s.last, s.tEnd, sumA s.tt, sumB s.tt) = (some 10, some 0, 10, 10) := by decide +kernel
 
 end FsVerif.Props.C17
